@@ -18,7 +18,7 @@ From Coq Require Import String.
 From Coq Require Import List NArith ZArith Bool Arith.
 From Coq Require Import Init.Byte.
 From FFS Require Import Base.Res Base.Bytes Base.Lit Base.Keccak Rlp.Model Rlp.Spec Tx.Spec
-  Crypto.Secp256k1Exec Rpc.Json Rpc.Model Rpc.Spec.
+  Crypto.Secp256k1Exec Rpc.Json Rpc.Model Rpc.Spec Rpc.BatchMachine.
 Import ListNotations.
 Local Open Scope string_scope.
 Local Open Scope list_scope.
@@ -369,6 +369,15 @@ Definition check_case (c : case) : N :=
               else if negb (match rep with Some p => tree_match body p | None => false end) then 2
               else if negb (multiset_eq sent obs) then 3
               else if negb (forallb (fun tr => ordered_in tr obs) traces) then 14
+              else if (b2n (sniffFirstByte (bexpand prefix)) =? 91)%N
+                      && negb (match rpcHandler_m parse_int_run (fun _ => req) accounts (sign_run signable (raws_of obs))
+                                                  (backend_table tb) chain real_prog (bexpand prefix) (sched_of_order order) with
+                               | Ok (st2, body2, _) =>
+                                   (st2 =? status)%N && match rep with Some p => tree_match body2 p | None => false end
+                               | _ => false
+                               end)
+                   then 8       (* wave 6: the interleaving machine with the explicit slot array (Rpc/BatchMachine.v), run under a
+                                   schedule with the forced completion order, differs from the implementation *)
               else 0
           | Err _ => 5
           | Panic => 5
